@@ -1094,6 +1094,13 @@ fn run_c07(ctx: &mut Ctx) {
         if i % 40 == 23 {
             c07_temp_outside_base(ctx, &mut r);
         }
+        if i % 100 == 31 {
+            // sources whose names / directories are not valid UTF-8: clean removes their outputs too
+            let (findings, cj) = crate::props::rawnames::scenario(ctx, &mut r);
+            for f in findings.iter().filter(|f| f.mode == "clean") {
+                ctx.violation(if f.class == "naming" { "C07:left-behind" } else { "C07:deleted-non-generated" }, format!("non-UTF-8 names: {}", f.msg), cj.clone());
+            }
+        }
         if i == 0 {
             ctx.sample(|| json!({"history": h, "sources": model::sources(&case.files)}));
         }
@@ -1103,6 +1110,16 @@ fn run_c07(ctx: &mut Ctx) {
 fn replay_c07(ctx: &mut Ctx, v: &Value) {
     if v["kind"].as_str() == Some("race") {
         c07_race(ctx, 60);
+        return;
+    }
+    if v["kind"].as_str() == Some("raw-names") {
+        let mut r = StdRng::seed_from_u64(3);
+        for _ in 0..6 {
+            let (findings, cj) = crate::props::rawnames::scenario(ctx, &mut r);
+            for f in findings.iter().filter(|f| f.mode == "clean") {
+                ctx.violation(if f.class == "naming" { "C07:left-behind" } else { "C07:deleted-non-generated" }, f.msg.clone(), cj.clone());
+            }
+        }
         return;
     }
     if v["kind"].as_str() == Some("temp-outside-base") {
@@ -1742,6 +1759,31 @@ fn c09_project(ctx: &mut Ctx, b: &Built, r: &mut StdRng, histories: usize) {
                 }
             }
         }
+        // ... and a temp file that exists but is stale is brought up to date by verify as well
+        if !temps.is_empty() {
+            let t = &temps[r.gen_range(0..temps.len())];
+            let good = std::fs::read(b.root.join(t)).unwrap_or_default();
+            let mut bad = good.clone();
+            if r.gen_bool(0.5) || bad.is_empty() {
+                bad.extend_from_slice(b"stale line left by an earlier run\n");
+            } else {
+                let k = bad.len() / 2;
+                bad[k] = if bad[k] == b'x' { b'y' } else { b'x' };
+            }
+            let _ = std::fs::write(b.root.join(t), &bad);
+            let o = run_at(&b.root, &b.case, Mode::Verify, b.case.trailing);
+            ctx.evals += 1;
+            ctx.count("verify_runs_over_a_stale_temp_file", 1);
+            if !matches!(o.verdict, Verdict::Watchdog) {
+                let now = std::fs::read(b.root.join(t)).unwrap_or_default();
+                if now != good {
+                    ctx.violation("C09:stale-not-brought-up-to-date:temp", format!("history {hist:?}: temp file {t} existed with stale content; after verify ({}) it is {} instead of {}", o.verdict.short(), show(&now), show(&good)), cj.clone());
+                } else if !o.verdict.is_ok() {
+                    ctx.violation("C09:verify-fails-on-up-to-date-tree", format!("history {hist:?}: every output is up to date and only temp file {t} was stale: verify failed ({})", o.verdict.short()), cj.clone());
+                }
+            }
+            let _ = std::fs::write(b.root.join(t), &good);
+        }
     }
 }
 
@@ -2005,15 +2047,22 @@ fn allowed_paths(files: &Files, selected: &BTreeSet<String>, follow_deps: bool) 
         }
         let text = String::from_utf8_lossy(&files[&src]).to_string();
         let dir = model::dir_of(&src).to_string();
-        for l in text.lines() {
-            if let Some(i) = l.find("TXTPP#temp ") {
-                if let Some(p) = model::norm_path(&dir, l[i + 11..].trim()) {
-                    // a `.txtpp` file is never a legitimate temp target: sources keep their bytes
-                    if !model::is_txtpp(&p) {
-                        allowed.insert(p);
+        // temp targets: first arguments of the lines that *are* temp directives (a `TXTPP#temp x`
+        // text inside another directive's block is an argument line, not a directive); erroneous
+        // prefix-less lines are skipped the way clean mode skips them
+        for it in model::parse_lenient(&model::split(&text).0) {
+            if let model::Item::Dir(d) = it {
+                if d.name == "temp" && !d.args.is_empty() {
+                    if let Some(p) = model::norm_path(&dir, &d.args[0]) {
+                        // a `.txtpp` file is never a legitimate temp target: sources keep their bytes
+                        if !model::is_txtpp(&p) {
+                            allowed.insert(p);
+                        }
                     }
                 }
             }
+        }
+        for l in text.lines() {
             if follow_deps {
                 for key in ["TXTPP#include ", "TXTPP#after "] {
                     if let Some(i) = l.find(key) {
